@@ -554,6 +554,57 @@ def stationarity_part(ctx, fnd):
         ctx.obligation('the stationarity predicate distinguishes gamma from gamma*nu (drift of the gamma-only form %.3g >> %.3g)' % (big[2], big[3]), big[2] > 10 * max(big[3], 1e-3), 'predicate')
 
 # ------------------------------------------------------------------------------------------------
+# the neutral equilibrium is an EXACT fixed point of the discrete integrator at interior grid points
+# (Proofs/SnmStationary.v: C01_neutral_equilibrium_is_discrete_fixed_point, any grid from 0 to 1, any time step)
+
+def snm_fixed_part(ctx):
+    rng = ctx.rng
+    cases = []
+    N = ctx.pick(14, 90)
+    for k in range(N):
+        c = dict(kind='snmfix', id=k, nu=numgen.logdy(rng, 0.05, 20), theta0=numgen.logdy(rng, 0.1, 10),
+                 beta=numgen.logdy(rng, 0.2, 5) if k % 3 == 0 else 1.0, T=numgen.logdy(rng, 0.01, 2.0),
+                 tf=rng.choice([1e-3, 1e-2, 1e-1, 1.0]), as_func=bool(k % 2), via=rng.choice(['phi_1D', 'snm']),
+                 gamma_arg=bool(k % 4 == 1), h=rng.choice([0.5, 0.0, 1.0, 0.25]))
+        if k % 2 == 0:
+            c['grid'] = numgen.grid(rng, rng.randint(4, 40), exact_ends=True)
+        else:
+            c['pts'] = rng.randint(5, 60)
+        cases.append(c)
+    if ctx.replay:
+        rp = json.load(open(ctx.replay))
+        if rp.get('input') and rp['input'].get('case', {}).get('kind') == 'snmfix':
+            c = rp['input']['case']; c['id'] = 0; cases = [c]
+        elif rp.get('input') and 'case' in rp['input']:
+            cases = []
+    if not cases:
+        return
+    res = lib.run_impl('c01_impl.py', cases, timeout=900)
+    byid = {r['id']: r for r in res}
+    worst = 0.0
+    for c in cases:
+        r = byid[c['id']]
+        desc = 'nu=%r theta0=%r beta=%r T=%r timescale_factor=%r %s grid of %s points, parameters as %s' % (
+            c['nu'], c['theta0'], c['beta'], c['T'], c['tf'], 'random' if 'grid' in c else 'default', len(c['grid']) if 'grid' in c else c['pts'], 'functions' if c['as_func'] else 'constants')
+        ctx.count('snmfix %s %s beta%s1' % ('random grid' if 'grid' in c else 'default grid', 'functions' if c['as_func'] else 'constants', '=' if c['beta'] == 1 else '<>'))
+        if 'error' in r:
+            ctx.obligation('neutral fixed-point case %d runs' % c['id'], False, 'predicate', r['error'])
+            ctx.violation('phi_1D / one_pop raised %s (%s)' % (r['error'], desc), data={'case': c, 'impl': r})
+            continue
+        b, a = r['before'], r['after']
+        dev = max(abs(x - y) / abs(x) for x, y in zip(b[1:-1], a[1:-1]))
+        worst = max(worst, dev)
+        ok = dev <= 1e-10 and all(math.isfinite(v) for v in a)
+        ctx.case(signature=('snmfix', json.dumps(c, sort_keys=True)), sample={'case': {k: v for k, v in c.items() if k != 'grid'}, 'max_rel_dev_interior': dev} if c['id'] % 6 == 0 else None)
+        ctx.obligation('neutral equilibrium density reproduced exactly at every interior grid point by one_pop (%s)' % desc, ok, 'predicate',
+                       'largest relative change of an interior entry %.3g (theorem: 0 in exact arithmetic; tolerance 1e-10)' % dev)
+        if not ok:
+            i = max(range(1, len(b) - 1), key=lambda j: abs(b[j] - a[j]) / abs(b[j]))
+            ctx.violation('the neutral equilibrium density phi_1D(gamma=0) is not left unchanged by Integration.one_pop with the same nu, theta0, beta: interior entry %d (x=%r) moves from %r to %r (relative %.3g; exact discrete fixed point by C01_neutral_equilibrium_is_discrete_fixed_point) - %s' % (
+                i, r['xx'][i], b[i], a[i], dev, desc), data={'case': c, 'impl': {'before': b, 'after': a}})
+    ctx.err('neutral equilibrium under one_pop, interior entries', math.floor(math.log2(worst)) if worst > 0 else -10000, '1e-10 relative (exact in the model)')
+
+# ------------------------------------------------------------------------------------------------
 # one_pop against the scheme model (the integrator model of C02, imported): a missing 1/nu, a wrong boundary term,
 # a misplaced mutation influx are O(1) here while they can hide below the 1.5 % of the accuracy check
 
@@ -643,5 +694,7 @@ def run(ctx):
     if not only or 'stat' in only:
         stationarity_part(ctx, fnd)
         fnd.flush()
+    if not only or 'snmfix' in only:
+        snm_fixed_part(ctx)
     if not only or 'hist' in only:
         history_part(ctx)
